@@ -19,7 +19,10 @@ LEVEL = 'exploration'
 RULE = ('windows of consecutive generate_id() issues on real server objects: '
         'start counters {0, 0x7fffff, 0xffff00 (across the wrap), seeded '
         'random} x random sources {os CSPRNG, constant, period-2, period-3} x '
-        '1..5 interleaved server instances (threaded and asyncio); quick '
+        '1..5 interleaved server instances (threaded and asyncio); windows '
+        'in which other things happen to the server between issues (shutdown(), '
+        'disconnect(), send() to unknown ids, handler registration, issues '
+        'through the real open request whose OPEN sid is checked); quick '
         'windows 2^17 (exact set uniqueness), thorough adds ONE FULL PERIOD '
         '2^24+1 issues per start counter with the constant source (bitset on '
         'the 24-bit tail; ids are an injective encoding of (random, tail) which '
@@ -31,7 +34,7 @@ ASSUMPTIONS = ['os.urandom / secrets is a CSPRNG (quality trusted)',
                'of the id contains, contiguously, the first 12 bytes the '
                'monitored source returned for that issue']
 REQUIRED = ['issue_monitor', 'format', 'provenance', 'uniqueness_window',
-            'counter_step']
+            'counter_step', 'life_op_shutdown', 'open_sid_checked']
 SHARD_TIMEOUT = {'quick': 300, 'thorough': 3000}
 
 FMT = re.compile(r'^[A-Za-z0-9_-]{20}$')
@@ -89,6 +92,7 @@ class Monitor:
     def post(self, server, result):
         rec = self.rec
         rec.count('issue_monitor')
+        self.last = result
         calls, self.src.calls = self.src.calls, []
         if not self.full or rec.counters['format'] < 4096:
             rec.count('format')
@@ -132,16 +136,69 @@ def make_servers(kinds):
     out = []
     for k in kinds:
         if k == 'T':
-            out.append(engineio.Server(async_mode='threading'))
+            out.append(engineio.Server(async_mode='threading',
+                                       monitor_clients=False))
         else:
-            out.append(engineio.AsyncServer(async_mode='asgi'))
+            out.append(engineio.AsyncServer(async_mode='asgi',
+                                            monitor_clients=False))
     return out
 
 
-def run_window(rec, mode, start, count, kinds, full=False):
+def life_op(rec, server, r, loop):
+    """Something else that happens in the life of a server between two
+    issues: API calls that have nothing to do with ids, a shutdown, or an
+    issue through the real open request (the id then comes back in the OPEN
+    packet and is compared with what the monitored generate_id returned)."""
+    import asyncio
+    import json
+    is_async = server.is_asyncio_based()
+    op = r.choice(['shutdown', 'disconnect-all', 'send-unknown', 'on',
+                   'open', 'open'])
+    rec.count('life_op_' + op)
+
+    def run(x):
+        return loop.run_until_complete(x) if asyncio.iscoroutine(x) else x
+    if op == 'shutdown':
+        run(server.shutdown())
+    elif op == 'disconnect-all':
+        if not server.sockets:
+            run(server.disconnect())
+    elif op == 'send-unknown':
+        run(server.send('nosuchsidAAAAAAAAAAA', 'x'))
+    elif op == 'on':
+        server.on('message', lambda sid, data: None)
+    else:
+        env = {'REQUEST_METHOD': 'GET', 'PATH_INFO': '/engine.io/',
+               'QUERY_STRING': 'transport=polling&EIO=4',
+               'HTTP_HOST': 'srv.test', 'wsgi.url_scheme': 'http'}
+        if is_async:
+            # the threaded driver's response format, so that no web
+            # framework is involved
+            server._async = dict(
+                server._async, translate_request=lambda e: e,
+                make_response=lambda st, hd, payload, e: payload)
+            body = run(server.handle_request(env))
+        else:
+            got = []
+            out = server.handle_request(env, lambda st, h: got.append(st))
+            body = b''.join(out)
+        if isinstance(body, bytes):
+            body = body.decode('utf-8')
+        sid = json.loads(body.split('\x1e')[0][1:])['sid']
+        rec.count('open_sid_checked')
+        return sid
+    return None
+
+
+def run_window(rec, mode, start, count, kinds, full=False, ops=0):
+    import asyncio
+    import random
     import engineio.base_server as bs
     case = {'source': mode, 'start': start, 'count': count, 'kinds': kinds,
-            'full': full}
+            'full': full, 'ops': ops}
+    opr = random.Random('c17-ops/%s/%s/%s' % (mode, start, ops))
+    loop = asyncio.new_event_loop() if ops else None
+    next_op = opr.randint(1, 200) if ops else -1
     rec.evaluations += count
     src = Source(mode)
     mon = Monitor(rec, src, case)
@@ -197,7 +254,20 @@ def run_window(rec, mode, start, count, kinds, full=False):
             n = 0
             while n < count:
                 for i, s in enumerate(servers):
-                    sid = s.generate_id()
+                    sid = None
+                    if n == next_op:
+                        next_op = n + opr.randint(1, 400)
+                        issued0 = rec.counters['issue_monitor']
+                        sid = life_op(rec, s, opr, loop)
+                        if sid is not None and (
+                                rec.counters['issue_monitor'] != issued0 + 1
+                                or sid != mon.last):
+                            rec.viol('id-not-from-generate-id', 'an open '
+                                     'request issued %r without exactly one '
+                                     'monitored generate_id() call' % sid,
+                                     case)
+                    if sid is None:
+                        sid = s.generate_id()
                     n += 1
                     if sid in seen[i]:
                         rec.viol('id-repeat-in-window', 'server %d issued %r '
@@ -215,6 +285,8 @@ def run_window(rec, mode, start, count, kinds, full=False):
                 'zero' if start == 0 else 'mid', len(kinds), ''.join(kinds)))
     finally:
         bs.secrets, bs.BaseServer.generate_id = orig_secrets, orig_gen
+        if loop is not None:
+            loop.close()
     return case
 
 
@@ -229,7 +301,17 @@ def plan(tier, seed):
             kinds = ''.join(r.choice('TA') for _ in range(r.randint(1, 5)))
             shards.append({'mode': mode, 'start': st, 'count': W,
                            'kinds': kinds})
+    # windows in which other things happen to the server between issues
+    for k, mode in enumerate(('const', 'p2', 'os', 'p3')):
+        shards.append({'mode': mode, 'start': [0, 0xffff00, 5, 0x7fffff][k],
+                       'count': 1 << 14, 'kinds': ['T', 'A', 'TA', 'AT'][k],
+                       'ops': seed * 10 + k + 1})
     if tier == 'thorough':
+        for k in range(8):
+            shards.append({'mode': ('const', 'p2')[k % 2],
+                           'start': r.randrange(1 << 24), 'count': 1 << 16,
+                           'kinds': ('T', 'A', 'TA')[k % 3],
+                           'ops': seed * 100 + k})
         for st in (0, 0xfffff0, r.randrange(1 << 24)):
             shards.append({'mode': 'const', 'start': st,
                            'count': (1 << 24) + 1, 'kinds': 'T', 'full': True})
@@ -242,7 +324,8 @@ def plan(tier, seed):
 def run_shard(spec):
     rec = Rec()
     case = run_window(rec, spec['mode'], spec['start'], spec['count'],
-                      spec['kinds'], spec.get('full', False))
+                      spec['kinds'], spec.get('full', False),
+                      spec.get('ops', 0))
     rec.sample(case)
     if spec.get('full'):
         rec.extra['exhaustive'] = True
@@ -252,5 +335,5 @@ def run_shard(spec):
 def replay(case):
     rec = Rec()
     run_window(rec, case['source'], case['start'], min(case['count'], 1 << 20),
-               case['kinds'], False)
+               case['kinds'], False, case.get('ops', 0))
     return rec.violations
